@@ -9,3 +9,20 @@ Definition hash_key_legacy (v : ver) : str := vstr v.
 Theorem C18_eq_hash_refuted_legacy :
   exists a b, veq a b = true /\ hash_key_legacy a <> hash_key_legacy b.
 Proof. exists (mkVer [2] None), (mkVer [2;0] None). vm_compute. split; [reflexivity|discriminate]. Qed.
+
+(* C16 / F11: before the fix, add_item computed the target index of a key
+   moved relative to another key BEFORE removing it *)
+From HS Require Import Model.SortableDict.
+Open Scope Z_scope.
+Definition add_item_reloc_legacy (order0 : list key) (k K : key) (after : bool) : list key :=
+  match index_of K order0 with
+  | Some n => py_insert (if after then Z.of_nat n + 1 else Z.of_nat n) k (remove_first k order0)
+  | None => order0
+  end.
+Theorem C16_relocation_refuted_legacy :
+  exists order0 k K,
+    add_item_reloc_legacy order0 k K false
+    <> map fst (fst (om_add (map (fun x => (x, 0)) order0) k 0 false None (Some K) true)).
+Proof.
+  exists [[97]; [98]; [99]; [100]]%N, [97]%N, [99]%N. vm_compute. discriminate.
+Qed.
